@@ -39,13 +39,15 @@ CHECKS = {
         "fringes against the abstract queue.",
    note=TB + "SimpleFringe is binary_heap_plus (external): specified by the abstract queue and tested only.",
    technique="Coq refinement proof (heap model -> abstract priority queue) + exhaustive op-sequence correspondence"),
- "C10": dict(cat="other", design="7.10",
-   text="Checker level: closed Coq theorems (partial_cmp is the component-wise order, verdict <-> an earlier query strictly dominates, store is an "
-        "antichain, threshold soundness, cmp ranks the dominator first) for every query sequence, tied to the code by exhaustive + random differential "
-        "runs with the Pareto-front specification as oracle. Solver level (pruning never changes the optimum) is an OPEN obligation validated only by "
-        "solver runs against exhaustive enumeration.",
-   note=TB + "Open: C10_search_sound.",
-   technique="Coq proof (checker) + differential correspondence; solver-level by oracle comparison"),
+ "C10": dict(cat="proof", design="7.10",
+   text="Dominance pruning is sound; the checker implements Pareto-front semantics. Checker level: closed Coq theorems (partial_cmp is the component-wise order, verdict <-> an earlier query "
+        "strictly dominates, store is an antichain, threshold soundness, cmp ranks the dominator first) for every query sequence, tied to the code by exhaustive + random differential runs with the "
+        "Pareto-front specification as oracle. Solver level (DomSearch.v): closed theorem C10_sequential_solver_with_dominance_returns_optimum - sequential solver, clean flavours, no cache - for rules "
+        "under which a strictly dominated reachable pair is never optimal (implied by STRICT admissibility: strict dominance => strictly larger value + value-to-go, e.g. the exact rule); and a closed "
+        "REFUTATION of the clause as stated: a rule that is merely admissible in the value-to-go sense makes the solver return 6 instead of 11 (circular pruning through store entries that are never "
+        "resolved) - reproduced on the real code and recorded as known finding D10. Check: solver runs with rules on / off vs exhaustive enumeration and vs the solver model, shared-store diagram stream.",
+   note=TB + "Not proved: transition-monotone rules that are not strictly admissible; pooled / cache / NoDupFringe / parallel configurations with a rule.",
+   technique="Coq proof (checker; solver level under strict admissibility) + refutation witness + differential correspondence"),
  "C06": dict(cat="proof", design="7.6",
    text="Relaxed diagrams: valid upper bound, truthful exactness. Closed Coq theorems about Mdd.compile for ANY compilation input and tie-break: C06_relaxed_value_is_an_upper_bound (best value >= the "
         "sub-problem optimum whenever it beats the incumbent), C06_exactness_claim_is_truthful (declared exact => best exact value = optimum), C06_best_exact_solution_is_genuine (the best exact "
@@ -127,10 +129,15 @@ CHECKS = {
         "(D3 and its residual D9, both reproduced on the real code and repaired by fix: commits; D9 was found while proving the parallel theorem).",
    note=TB + "Hash-map iteration order abstracted (total comparator + tie-break oracle arguments); ties among equally valued terminal nodes are reported and excluded from trajectory comparisons.",
    technique="Coq proof (two storeys: B&B under diagram contracts; contracts proved about the diagram model) + differential correspondence + specification oracle"),
- "C09": dict(cat="other", design="7.9",
-   text='The threshold cache never changes the answer. Store level: proved (C18). Per compilation: closed Coq theorem C09_every_cache_entry_written_is_sound (Thresholds.v): every threshold a relaxed clean compilation started from an entry-free cache writes is sound - a later arrival at that (state, depth) with a value up to the threshold can only be completed to at most best_known or through a sub-problem this diagram hands out with a value at least as good. Search level (NOT proved): caching vs non-caching solvers vs exhaustive enumeration on re-converging instances; the Coq models of diagrams and solver include the threshold computations and the cache, and agree with the code on explored-node and poll counts, on every threshold drawn in the DOT dump and on every cache call of a diagram-level stream that uses the stores the way the solvers do. Search-level soundness theorem is open.',
-   note=TB + "Hash-map iteration order abstracted (total comparator + tie-break oracle arguments); ties among equally valued terminal nodes are reported and excluded from trajectory comparisons.",
-   technique="executable Coq model + differential correspondence + specification oracle; store-level Coq proof"),
+ "C09": dict(cat="proof", design="7.9",
+   text="The threshold cache never changes the answer. Closed Coq theorems: store level (C18); per compilation (Thresholds.v): every threshold a relaxed compilation writes is sound; SEARCH level "
+        "(CacheSearch.v, 6.3k lines): C09_sequential_solver_with_cache_returns_optimum and C09_cache_does_not_change_the_answer - the sequential solver with the cache (clean flavours, no dominance rule, "
+        "SimpleFringe) returns the optimum of exhaustive enumeration with a feasible solution, same value and lower bound as with the cache off; premises of C01 with the guard 3B <= isize::MAX; the "
+        "per-compilation contracts are discharged for the diagram model. The invariant is value-based (merged nodes are dropped by the cache filter too) and relies on best-first pops, so it does NOT "
+        "cover the parallel solver. " + ASM + "Check: caching vs non-caching solvers (sequential, parallel with one worker and scheduled) vs exhaustive enumeration on re-convergent, top-merge and depth-free "
+        "families; thresholds in the DOT dump and every cache call of a solver-like diagram stream compared with the model.",
+   note=TB + "Not proved: parallel solver with the cache, pooled diagrams, NoDupFringe, cache together with a dominance rule.",
+   technique="Coq proof (store, per-compilation, search level) + differential correspondence + specification oracle"),
  "C14": dict(cat="proof", design="7.14",
    text="A warm-start primal never makes the solver miss a better solution. Closed Coq theorem C14_primal_never_hides_the_optimum (any feasible (value, solution) given to set_primal: same "
         "conclusion as C01) and set_primal_strict (the incumbent is replaced only by a strictly better pair, value and solution together). " + ASM +
